@@ -11,6 +11,7 @@ import (
 	"fmt"
 	"math/big"
 	"os"
+	"runtime/pprof"
 	"sort"
 	"strings"
 
@@ -865,7 +866,16 @@ func (r *runner) dealerCheat(sess *protos.Session, label func(party.ID) string) 
 			r.out.Reached = true
 			return
 		}
-		if r.sc.Alt == "nonzero" && su.proto == "cmp-keygen" || strings.HasPrefix(r.sc.Alt, "eval") {
+		if r.sc.Alt == "wrongshares" {
+			protos.CmpWrongShares(sess, k, []byte("sid"), mk)
+			for _, id := range su.ids {
+				e.AddParty(id, r.newParty(sess, id, label(id)))
+			}
+			r.loop(nil)
+			r.out.Reached = true
+			return
+		}
+		if r.sc.Alt == "nonzero" && su.proto == "cmp-keygen" || r.sc.Alt == "zero" && su.proto == "cmp-refresh" || strings.HasPrefix(r.sc.Alt, "eval") {
 			r.out.Applicable = false
 			r.out.Why = "not defined for this protocol"
 			return
@@ -888,6 +898,20 @@ func (r *runner) dealerCheat(sess *protos.Session, label func(party.ID) string) 
 	}
 	if strings.HasPrefix(r.sc.Alt, "commit:") {
 		protos.CommitCheat(sess, k, strings.TrimPrefix(r.sc.Alt, "commit:"), []byte("sid"), mk)
+		for _, id := range su.ids {
+			e.AddParty(id, r.newParty(sess, id, label(id)))
+		}
+		r.loop(nil)
+		r.out.Reached = true
+		return
+	}
+	if r.sc.Alt == "zero" {
+		if strings.HasSuffix(su.proto, "-refresh") {
+			r.out.Applicable = false
+			r.out.Why = "a refresh polynomial has a zero constant term anyway"
+			return
+		}
+		protos.FrostZeroDealer(sess, k, []byte("sid"), mk)
 		for _, id := range su.ids {
 			e.AddParty(id, r.newParty(sess, id, label(id)))
 		}
@@ -1388,6 +1412,12 @@ func discover(proto string, n, t int, seed string) {
 }
 
 func main() {
+	if pf := os.Getenv("HADV_CPUPROFILE"); pf != "" {
+		if f, err := os.Create(pf); err == nil {
+			pprof.StartCPUProfile(f)
+			defer pprof.StopCPUProfile()
+		}
+	}
 	mode := flag.String("mode", "run", "run | discover")
 	scen := flag.String("scen", "", "scenario file (JSON lines)")
 	outDir := flag.String("out", ".", "output directory")
